@@ -188,7 +188,7 @@ def h_flow(E, cfg):
         backend.patch(_ccp, "proximal_operator", prox_stub)
         backend.patch(_admm, "proximal_operator", prox_stub)
     X = E.real("X", shp)
-    E.assume(E.Or([E.Not(E.eq(x, 0)) for x in np.asarray(X, dtype=object).ravel()]))
+    E.assume(E.Or([E.nonzero(x) for x in np.asarray(X, dtype=object).ravel()]))
     kwargs, assign, conflict = build_kwargs(E, cfg["spec"], N)
     kw = dict(n_iter_max=K, n_iter_max_inner=cfg["inner"], tol_outer=0, tol_inner=0, fixed_modes=list(fixed) if fixed else None)
     F0 = None
